@@ -1121,11 +1121,18 @@ fn random_faults(rng: &mut rand::rngs::StdRng, slots: &mut Vec<Slot>, peers: &[I
 }
 
 fn random_program(rng: &mut rand::rngs::StdRng, idx: usize, plain_permille: u32) -> Program {
+    random_program_k(rng, idx, plain_permille, false)
+}
+
+/// `soak`: one long sequential history against a single exporter -- some 300 faults over well above a hundred connections
+/// that end badly, probes after every round: whatever a bad connection leaves behind must not add up to a refusal of
+/// later clients (seeded change C18-inflight_slot_leak needs 64 of them).
+fn random_program_k(rng: &mut rand::rngs::StdRng, idx: usize, plain_permille: u32, soak: bool) -> Program {
     let (entries, peers) = random_config(rng, plain_permille);
     let mut ops = vec![];
     let mut slots = vec![Slot::default(); rng.random_range(3..=6)];
-    let kind = idx % 3;
-    let rounds = if kind == 2 { 2 } else { rng.random_range(3..=6) };
+    let kind = if soak { 0 } else { idx % 3 };
+    let rounds = if soak { 70 } else if kind == 2 { 2 } else { rng.random_range(3..=6) };
     for r in 0..rounds {
         let nf = rng.random_range(1..=5);
         if kind == 2 && r == 1 {
@@ -1201,6 +1208,14 @@ fn main() {
                 if st.aborted_runs >= MAX_ABORTED_RUNS {
                     break;
                 }
+                run += 1;
+                run_program(&srt, &crt, &p, run, &mut w, &mut st);
+            }
+            for k in 0..args.num("soak", 1usize) {
+                if st.aborted_runs >= MAX_ABORTED_RUNS {
+                    break;
+                }
+                let p = random_program_k(&mut rng, runs + k, plain, true);
                 run += 1;
                 run_program(&srt, &crt, &p, run, &mut w, &mut st);
             }
